@@ -23,6 +23,7 @@ type LoopContract struct {
 	Invariants []*Clause
 	Decreases  *Clause
 	Modifies   []*Clause
+	Lemmas     []*Clause // instances of built-in arithmetic lemmas assumed at the loop head
 }
 
 type Contract struct {
@@ -288,6 +289,16 @@ func parseContractFile(path string) (*ContractFile, error) {
 					if len(sp) != 2 {
 						return nil, fmt.Errorf("%s:%d: bad loop clause %q", path, rc.line, rest)
 					}
+					if sp[0] == "modifies" {
+						for _, part := range splitTopComma(sp[1]) {
+							cl, err := mkClause(part, rc.line)
+							if err != nil {
+								return nil, err
+							}
+							lc.Modifies = append(lc.Modifies, cl)
+						}
+						continue
+					}
 					cl, err := mkClause(strings.TrimSpace(sp[1]), rc.line)
 					if err != nil {
 						return nil, err
@@ -295,6 +306,8 @@ func parseContractFile(path string) (*ContractFile, error) {
 					switch sp[0] {
 					case "invariant":
 						lc.Invariants = append(lc.Invariants, cl)
+					case "lemma":
+						lc.Lemmas = append(lc.Lemmas, cl)
 					case "decreases":
 						lc.Decreases = cl
 					case "modifies":
